@@ -254,7 +254,7 @@ func genHistory(rng *h.Rng, st h.Stats) string {
 
 func gen(rng *h.Rng, tier string, emit func(string)) {
 	st := h.Stats{}
-	n := 150
+	n := 110
 	if tier == "thorough" {
 		n = 6000
 	}
